@@ -1817,12 +1817,12 @@ func (n *node) unregisterProcess(p *process, reason error) {
 	// it was a consumer of these events
 	for _, t := range linkTargets {
 		if ev, ok := t.(gen.Event); ok {
-			n.eventConsumerGone(ev)
+			n.eventConsumerGone(p.pid, ev, false)
 		}
 	}
 	for _, t := range monitorTargets {
 		if ev, ok := t.(gen.Event); ok {
-			n.eventConsumerGone(ev)
+			n.eventConsumerGone(p.pid, ev, true)
 		}
 	}
 
@@ -1975,8 +1975,22 @@ func (n *node) unregisterEvent(name gen.Atom, pid gen.PID) error {
 // removed by the termination of the consumer (there was no Unlink/Demonitor request):
 // decrements the consumer counter of the event and notifies the producer if this
 // was the last consumer (see RouteUnlinkEvent)
-func (n *node) eventConsumerGone(target gen.Event) {
+//
+// The owner node of a remote event keeps its own relation (and counts a consumer)
+// for this process: tell it, as Unlink/Demonitor would have. Nobody waits for the answer
+func (n *node) eventConsumerGone(consumer gen.PID, target gen.Event, monitor bool) {
 	if target.Node != n.name {
+		connection, err := n.network.Connection(target.Node)
+		if err != nil {
+			return
+		}
+		go func() {
+			if monitor {
+				connection.DemonitorEvent(consumer, target)
+				return
+			}
+			connection.UnlinkEvent(consumer, target)
+		}()
 		return
 	}
 	value, exist := n.events.Load(target)
